@@ -32,7 +32,7 @@ def cross_cases(draw, tier):
     regime = draw(st.sampled_from(["fixed", "growth"]))
     case = {"T": T, "regime": regime, "y0seed": draw(st.integers(0, 10 ** 6)), "cache": draw(st.booleans()),
             "vld": draw(st.booleans()), "vseed": draw(gen.seeds), "extra": draw(st.integers(0, 2)),
-            "scale10": draw(st.sampled_from([0, 0, 0, 6, -6, 30, -30, 100, -100]))}
+            "scale10": draw(st.sampled_from([0, 0, 0, 6, -6, 30, -30, 100, -100, -170, -250, 140]))}
     if regime == "growth":
         case["dr_min"] = draw(st.integers(1, 2))
         case["dr_max"] = draw(st.integers(case["dr_min"], 2))
@@ -68,7 +68,9 @@ def prop_cross(case, ctx):
         dr_min, dr_max = case["dr_min"], case["dr_max"]
         nswp = rho + 1 + case["extra"]
     I_vld = y_vld = None
-    if case["vld"]:
+    if case["vld"] and abs(case.get("scale10", 0)) <= 140:
+        # (the data-set error is a ratio of plain Euclidean norms: its squares must be representable, so no validation data
+        #  for targets of magnitude 1e-170 / 1e-250; the reproduction claim itself is scale-free)
         rng = np.random.default_rng(case["vseed"])
         I_vld = np.vstack([rng.integers(0, k, size=7) for k in n]).T
         y_vld = F[tuple(I_vld.T)]
